@@ -12,6 +12,7 @@ import (
 	"reflect"
 	"sync"
 
+	"github.com/markkurossi/mpc/ot"
 	"github.com/markkurossi/mpc/sha2pc"
 
 	"verifharness/internal/vrt"
@@ -462,6 +463,139 @@ func c18Reject(cs *vrt.Case, r *vrt.Rng, cv elliptic.Curve) {
 		} else {
 			cs.Count("mutations_accepted", 1)
 		}
+	}
+	c18Round3Integrity(cs, r, cv, a, b, &s1)
+}
+
+// c18Round3Integrity: a round-3 message damaged in transit, or one that answers
+// another round-2 message of the same session id (the evaluator crashed, ran
+// round 2 again and restored that later session), is either rejected with an
+// error or - when the damage hits bytes the evaluation never reads (an
+// unselected table row, OT half or hint label) - still yields SHA-256(a xor b).
+// A nil error with another digest is the evaluator presenting garbage as the
+// result ("malformed bytes are rejected with an error"). Single bits of every
+// field are flipped on the decoded message (so the field is known) and random
+// bytes/bits of the encoding.
+func c18Round3Integrity(cs *vrt.Case, r *vrt.Rng, cv elliptic.Curve, a, b [32]byte, s1 *c18Run) {
+	name := cv.Params().Name
+	want := sha256.Sum256(sliceOf(xor32(a, b)))
+	es, err := sha2pc.DecodeEvaluatorSession(cv, s1.esb)
+	if err != nil {
+		return
+	}
+	flip := func(l *ot.Label) {
+		p := r.Intn(128)
+		if p < 64 {
+			l.D0 ^= 1 << uint(p)
+		} else {
+			l.D1 ^= 1 << uint(p-64)
+		}
+	}
+	flipData := func(d *ot.LabelData) { p := r.Intn(len(d) * 8); d[p/8] ^= 1 << uint(p%8) }
+	n := 20
+	if cs.Thorough() {
+		n = 80
+	}
+	for i := 0; i < n; i++ {
+		m, err := sha2pc.DecodeRound3(s1.r3b)
+		if err != nil {
+			return
+		}
+		field := ""
+		switch r.Intn(8) {
+		case 0:
+			p := r.Intn(256)
+			m.Key[p/8] ^= 1 << uint(p%8)
+			field = "Key"
+		case 1, 2:
+			g := r.Intn(len(m.GarbledTables))
+			for len(m.GarbledTables[g]) == 0 {
+				g = r.Intn(len(m.GarbledTables))
+			}
+			flip(&m.GarbledTables[g][r.Intn(len(m.GarbledTables[g]))])
+			field = "GarbledTables"
+		case 3:
+			flip(&m.GarblerInputs[r.Intn(len(m.GarblerInputs))])
+			field = "GarblerInputs"
+		case 4, 5:
+			h := &m.OutputHints[r.Intn(len(m.OutputHints))]
+			if r.Bool() {
+				flip(&h.L0)
+			} else {
+				flip(&h.L1)
+			}
+			field = "OutputHints"
+		case 6:
+			c := &m.Ciphertexts[r.Intn(len(m.Ciphertexts))]
+			if r.Bool() {
+				flipData(&c.Zero)
+			} else {
+				flipData(&c.One)
+			}
+			field = "Ciphertexts"
+		default:
+			d := append([]byte(nil), s1.r3b...)
+			if r.Bool() {
+				p := r.Intn(len(d) * 8)
+				d[p/8] ^= 1 << uint(p%8)
+			} else {
+				p := r.Intn(len(d))
+				d[p] ^= byte(r.Range(1, 255))
+			}
+			if m, err = sha2pc.DecodeRound3(d); err != nil {
+				cs.Count("round3_damage_rejected_by_decoder", 1)
+				continue
+			}
+			field = "encoding"
+		}
+		var dg [32]byte
+		var rerr error
+		pan := vrt.Guard(func() { dg, rerr = sha2pc.EvaluatorRound4(cv, es, m) })
+		cs.Evals++
+		cs.Key("r3-integrity", name, field, fmt.Sprint(cs.Idx, i))
+		switch {
+		case pan != nil && pan.InMPC:
+			cs.Violate("C18|mutation-panic|round3|"+pan.Frame, "round 4 panicked on a damaged round-3 message ("+field+"): "+pan.Value, map[string]any{"stack": pan.Stack})
+		case pan != nil:
+			cs.Inconc("harness panic: " + pan.Value)
+		case rerr != nil:
+			cs.Count("round3_damage_rejected|"+field, 1)
+		case dg != want:
+			cs.Violate("C18|damaged-round3-wrong-digest|"+field, fmt.Sprintf("a round-3 message with one damaged bit/byte in %s was accepted and round 4 returned %x instead of SHA-256(a xor b) = %x without an error", field, dg[:8], want[:8]),
+				map[string]any{"curve": name, "field": field})
+		default:
+			cs.Count("round3_damage_harmless|"+field, 1)
+		}
+	}
+	// a round-3 message answering an earlier round-2 message of the same session id
+	var dg [32]byte
+	var rerr error
+	pan := vrt.Guard(func() {
+		m1, e1 := sha2pc.DecodeRound1(cv, s1.r1b)
+		m3, e3 := sha2pc.DecodeRound3(s1.r3b)
+		if e1 != nil || e3 != nil {
+			rerr = fmt.Errorf("decode")
+			return
+		}
+		_, es2, e2 := sha2pc.EvaluatorRound2(r.Fork(), cv, m1, b)
+		if e2 != nil {
+			rerr = e2
+			return
+		}
+		dg, rerr = sha2pc.EvaluatorRound4(cv, es2, m3)
+	})
+	cs.Evals++
+	switch {
+	case pan != nil && pan.InMPC:
+		cs.Violate("C18|mutation-panic|stale-session|"+pan.Frame, "round 4 panicked on a round-3 message answering another round 2: "+pan.Value, map[string]any{"stack": pan.Stack})
+	case pan != nil:
+		cs.Inconc("harness panic: " + pan.Value)
+	case rerr != nil:
+		cs.Count("stale_session_rejected", 1)
+	case dg != want:
+		cs.Violate("C18|stale-session-wrong-digest", fmt.Sprintf("round 4 accepted a round-3 message that answers another round-2 message of the same session id and returned %x instead of SHA-256(a xor b) without an error", dg[:8]), map[string]any{"curve": name})
+	default:
+		cs.Count("stale_session_harmless", 1)
 	}
 }
 
